@@ -157,13 +157,10 @@ class LinearDiscipline(Discipline):
                         dtype=jac.dtype,
                     )
 
-                    def matvec(x, matrix=jac):
-                        return matrix @ x
-
-                    def rmatvec(x, matrix=jac):
-                        return matrix.T @ x
-
-                    operator._matvec = matvec
-                    operator._rmatvec = rmatvec
+                    # Bound methods rather than local functions:
+                    # the Jacobian, hence the discipline and its cache,
+                    # can then be pickled.
+                    operator._matvec = jac.dot
+                    operator._rmatvec = jac.T.dot
 
                     self.jac[output_name][input_name] = operator
